@@ -38,6 +38,8 @@ NoStmt == [k |-> "none"]
 Opt(X) == X \cup {NoStmt}
 Stmts(x) == IF x.k = "none" THEN <<>> ELSE <<x>>
 PagesA == {Stmts(i1) \o <<H(" junk ")>> \o Stmts(i2) : i1 \in Opt(InsForms("title")), i2 \in Opt(InsForms("content"))}
+          \* code of the page outside its inserts is not part of the output and does not reach the layout
+          \cup {<<Assign("t", v, 1), P(Var("t")), InsertB("content", <<H("c:"), P(Var("t"))>>, 1), Assign("show", IntL(0), 1), InsertE("title", Var("t"), 1), P(Var("zz"))>> : v \in {StrL("page"), IntL(5)}}
           \cup {Stmts(i2) \o Stmts(i1) \o <<H("tail")>> : i1 \in Opt(InsForms("title")), i2 \in InsForms("content")}
 PagesB == {Stmts(i1) \o Stmts(i2) : i1 \in Opt(InsForms("a")), i2 \in Opt(InsForms("b"))}
 PagesC == {Stmts(i1) \o Stmts(i2) : i1 \in Opt(RowForms), i2 \in Opt(InsForms("foot"))}
@@ -179,6 +181,9 @@ Bad07 == {[tree |-> Tree07(<<H("x"), u>>), page |-> "home", d |-> Data07, tags |
             <<u, t>> \in {<<Comp(Alias("plain"), <<>>, <<Sl("", <<H("s")>>)>>, 1), "undeclared-slot">>,
                           <<Comp(Alias("named"), <<>>, <<Sl("nope", <<H("s")>>)>>, 1), "undeclared-slot">>,
                           <<Comp(Alias("def"), <<>>, <<Sl("x", <<H("s")>>)>>, 1), "undeclared-slot">>,
+                          <<Comp(Alias("def"), <<>>, <<Sl("x", <<>>)>>, 1), "undeclared-slot">>, <<Comp(Alias("plain"), <<>>, <<Sl("", <<>>)>>, 1), "undeclared-slot">>,
+                          <<Comp(Alias("named"), <<>>, <<Sl("head", <<H("a")>>), Sl("nope", <<>>)>>, 1), "undeclared-slot">>,
+                          <<Comp(Alias("def"), <<>>, <<Sl("", <<>>), Sl("", <<>>)>>, 1), "slot-twice">>,
                           <<Comp(Alias("def"), <<>>, <<Sl("", <<H("a")>>), Sl("", <<H("b")>>)>>, 1), "slot-twice">>,
                           <<Comp(Alias("named"), <<>>, <<Sl("head", <<H("a")>>), Sl("foot", <<H("f")>>), Sl("head", <<H("b")>>)>>, 1), "slot-twice">>,
                           <<Comp(Alias("ghost"), <<>>, <<>>, 1), "missing-component">>,
